@@ -2,6 +2,24 @@
 import os, subprocess
 from vlib import common as C
 
+MANIFEST = {
+    "text": "Lean theorems over ALL resource tables, queries, offsets and buffer sizes: the transcription M of the PRINT_*_WITH_OFFSET "
+            "macros, coap_print_link, coap_print_wellknown_lkd (query splitter, coap_find_attr, match()) writes exactly "
+            "(listing.drop offset).take buflen of the RFC 6690 listing S of the registered resources the filter selects "
+            "(window_exact, via a closed form of the writer proved once for one byte and lifted over bytes, pieces and resources), "
+            "reports the exact total (total_exact), sets TRUNC for a non-empty buffer iff listing remains (trunc_flag_iff); "
+            "match() = RFC 6690 matching (exact / prefix* / SP-separated tokens) and never reads outside its strings "
+            "(match_eq_spec, match_no_overread, filter_eq_spec, wellknown_no_overread); the GET handler's body is the listing and "
+            "the blocks of any size tile it (get_body_eq_listing, block_get_reassembles). M is tied to the compiled code by "
+            "differential runs I vs M vs S: every (offset, buflen) pair up to listing length + 2 on generated tables/filters with "
+            "exact-size heap objects under ASan/UBSan, plus a real block-wise GET through coap_dispatch() for every SZX. "
+            "Three defects found by the check were fixed in libcoap (82aaa05, 5e40d26, aa61e0b); one is open (wkc-query-escaped: the GET "
+            "path compares the percent-encoded query), with a decide-proved witness and get_reassembles_partial.",
+    "note": "Trusted: Lean kernel (+ propext, Classical.choice, Quot.sound), harness/generator/judge, the hand transcription M "
+            "(checked against the compiled code on the cases run only), uthash's insertion-order iteration. Hypothesis of the "
+            "theorems: buflen <= COAP_PRINT_STATUS_MAX. Block slicing itself belongs to the block-wise layer (C09).",
+    "design_ref": "DESIGN.md §4 C20, design/C20.md",
+}
 LEAN_MODULES = ["CoapVerif.Props.C20"]
 NAMESPACE = "Coap.C20"
 REQUIRED_THEOREMS = ["window_exact", "total_exact", "trunc_flag_iff", "listing_exactly_registered", "match_eq_spec",
@@ -233,10 +251,10 @@ def match_lines(rng, n, exhaustive):
 def generate(ctx, escalate=False):
     rng = ctx.rng
     thorough = ctx.thorough()
-    ntables = 4000 if thorough else 700
+    ntables = 2000 if thorough else 700
     if escalate:
         ntables *= 2
-    full_limit = 100 if thorough else 64
+    full_limit = 80 if thorough else 64
     pairs, meta = [], []
     for i in range(ntables):
         nres = rng.choice([0, 1, 1, 1, 2, 2, 2, 3, 3, 4, 5, 6, 8, 10, 12])
@@ -282,7 +300,12 @@ def judge(ctx, c):
     if i == "bad-op" or m == "bad-op":
         return ("tie", "bad-op: impl=%s model=%s" % (i, m))
     if op == "wk":
-        wi, ws = i.split(","), (s or "").split(",")
+        if ";" not in i or ";" not in (s or ""):
+            return ("spec", "implementation %s, specification %s" % (short(i), short(s)))
+        (fi, ri), (fs, rs) = i.split(";", 1), s.split(";", 1)
+        if fi != fs:
+            return ("spec", "full listing (size probe + full print) %s, specification %s" % (short(fi), short(fs)))
+        wi, ws = ri.split(","), rs.split(",")
         args = c["input"].split()[3].split(",")
         if len(wi) != len(ws) or len(wi) != len(args):
             return ("tie", "window count differs: impl %d, spec %d, asked %d" % (len(wi), len(ws), len(args)))
@@ -293,7 +316,8 @@ def judge(ctx, c):
             if len(fx) != 3 or len(fy) != 3:
                 return ("spec", "window %s: implementation %s, listing window %s" % (a, x, y))
             if fx[0] != fy[0]:
-                return ("spec", "window %s: bytes written %s, window of the listing %s" % (a, fx[0], fy[0]))
+                return ("spec", "window %s: bytes written %s, window of the listing %s (=n: the n bytes of the listing %s at that offset)"
+                        % (a, fx[0], fy[0], fs[1:]))
             if fx[2] != fy[2]:
                 return ("spec", "window %s: reported total %s, listing length %s" % (a, fx[2], fy[2]))
             if fy[1] != "?" and fx[1] != fy[1]:
@@ -314,7 +338,9 @@ def nontrivial(c):
     s = c["spec"] or ""
     if c["input"].startswith("match"):
         return True
-    return any(not w.startswith("-:") for w in s.split(",")) and s not in ("", "-")
+    if c["input"].startswith("wk"):
+        return not s.startswith("F-;")
+    return s not in ("", "-") and not s.startswith("-:")
 
 
 def classify(c):
